@@ -225,7 +225,9 @@ def _neighbours(s: str) -> Iterable[str]:
 
 
 def _chunks(strings: List[str]) -> List[List[str]]:
-    return [strings[i:i + CHUNK] for i in range(0, len(strings), CHUNK)]
+    """chunks of balanced cost: accepted (slow) strings cluster in enumeration order, so deal the strings round-robin"""
+    n = max(1, min(len(strings) // 20 + 1, -(-len(strings) // CHUNK) if len(strings) > 128 * CHUNK else 256))
+    return [c for c in (strings[i::n] for i in range(n)) if c]
 
 
 def _explore(ctx, name: str, strings: List[str], seen: set, all_failures: List[dict], rule: str, bound: str,
